@@ -212,7 +212,22 @@ pub fn classify(acc: &mut FrontAcc, req: &Request, out: Outcome) {
             detail: "no error diagnostic but any_were_unsafe_to_compile".into(),
         });
     }
-    if let Some(d) = out.diags.iter().find(|d| d.stage == "ty" && d.error && d.has_expr) {
+    // an error inside the header of an `extern` definition has no code that could be flagged: the definition has no body and
+    // nothing is compiled for it (`foo : 1 extern;`) - only errors in code that would be compiled are demanded to be flagged
+    let in_extern_header = |d: &DiagOut| -> bool {
+        let text = req
+            .modules
+            .iter()
+            .find(|(name, _)| d.file.ends_with(name.as_str()) || name.ends_with(d.file.as_str()))
+            .or_else(|| req.modules.first())
+            .map(|(_, t)| t.as_str())
+            .unwrap_or("");
+        match text.get(d.end as usize..) {
+            Some(rest) => rest.split(';').next().is_some_and(|r| r.trim() == "extern" || r.trim().ends_with(" extern")),
+            None => false,
+        }
+    };
+    if let Some(d) = out.diags.iter().find(|d| d.stage == "ty" && d.error && d.has_expr && !in_extern_header(d)) {
         if !out.any_unsafe {
             acc.c07_failures.push(Failure {
                 signature: format!("error-without-unsafe:{}", d.kind),
